@@ -477,6 +477,19 @@ def gpsd_session(col, binpath, vmon, rng, tag, scratch):
         col.count("gpsd_map_checks")
         if not on_north or not on_east:
             col.add("C18", "C18|map_not_centred_on_gpsd_fix", f"aircraft {d} km due north and due east of the current fix {p2} are not on the axes of the map: blue dots at (row, column) offsets {sorted(blue)[:12]}", inp)
+        # gpsd falls silent (connected, no more reports); view controls and reset must not bring the
+        # command-line position back
+        g.silent = True
+        sess.p.pump(0.6)
+        for k in ("-", "Up", "Left", "Enter"):
+            sess.key(k)
+            sess.p.pump(0.1)
+        sess.settle(0.5)
+        sess.p.pump(1.0)
+        t = title_pos()
+        col.count("gpsd_silent_reset_checks")
+        if t is not None and (abs(t[0] - p2[0]) > 0.0011 or abs(t[1] - p2[1]) > 0.0011):
+            col.add("C18", "C18|gpsd_fix_lost_after_reset", f"gpsd fell silent after reporting {p2}; after zoom, pan and reset the title shows {t} (command line: {p0})", inp)
     except Inconclusive:
         if sess.p.alive():
             raise
@@ -661,6 +674,9 @@ def map_session(col, binpath, rng, tag, scratch):
                 continue
             lines.append(enc.line(enc.long_frame(17, 5, addr, enc.me_airpos(11, 30000, la, lo, False))))
             lines.append(enc.line(enc.long_frame(17, 5, addr, enc.me_airpos(11, 30000, la, lo, True))))
+    # two aircraft without a position, sorting before and between the others (rows without a dot)
+    lines.insert(0, enc.line(enc.long_frame(17, 5, 0x6FFFFF, enc.me_ident(4, 0, "NOPOS1"))))
+    lines.insert(5, enc.line(enc.long_frame(17, 5, 0x700005, enc.me_ident(4, 0, "NOPOS2"))))
     plan = [("send", b"".join(lines)), ("mark", "feed_done"), ("sleep", 60)]
     # these aircraft never sent a velocity report, so with the heading display on (the default)
     # their dot is still the only blue thing: every other session keeps the default
@@ -690,7 +706,7 @@ def map_session(col, binpath, rng, tag, scratch):
     inp = {"receiver": [lat, lon], "d_km": d, "options": opts, "lines": [l.decode() for l in lines], "tag": tag}
     try:
         sess.wait_connected()
-        rows = wait_rows(sess, 8)
+        rows = wait_rows(sess, 10)
         if rows is None or len([r for r in rows if r["lat"]]) < 8:
             raise Inconclusive("not all eight aircraft have a position")
         sess.key("F1")
@@ -831,6 +847,14 @@ def map_session(col, binpath, rng, tag, scratch):
         if blue_now() != sorted(blue):
             col.add("C18", "C18|map_reset_does_not_restore_view", f"aircraft cells after panning and reset differ from before", inp2)
         if with_markers:
+            # the reset must bring the markers back as well (they are part of the picture)
+            cells = sess.p.screen.cells
+            gone = []
+            for label in markers:
+                if not any(label in "".join(cells[r][c][0] for c in range(left + 1, right)) for r in range(top + 1, bottom)):
+                    gone.append(label)
+            if gone:
+                col.add("C18", "C18|map_marker_misplaced|after_reset", f"--locations / --airports markers {gone} are no longer on the map after panning and reset", inp2)
             return
         # zooming changes the scale only: after three zoom-outs all eight aircraft are still there,
         # in the same directions and proportions, nearer to the centre; after five zoom-ins (net two
@@ -888,14 +912,22 @@ def map_session(col, binpath, rng, tag, scratch):
         # position as the (custom) centre, so its dot belongs in the middle of the canvas
         sess.key("F3")
         sess.settle(0.4)
-        for _ in range(1 + idx % 5):
+        table = sess.airplanes_rows() or []
+        n_down = 1 + idx % 5
+        for _ in range(n_down):
             sess.key("Down")
             sess.p.pump(0.05)
         sess.key("Enter")
         sess.settle(0.6)
         t = centre_in_title()
         col.count("centre_on_aircraft_checks")
-        if t is not None and any("┌Map" in l for l in sess.p.screen.text()) and any("CUSTOM" in l for l in sess.p.screen.text()[:3]):
+        selected = table[n_down - 1] if len(table) >= n_down else None
+        on_map = any("┌Map" in l for l in sess.p.screen.text())
+        if selected is not None and not selected["lat"] and on_map and any("CUSTOM" in l for l in sess.p.screen.text()[:3]):
+            col.add("C18", "C18|map_centred_on_another_aircraft", f"Enter on the row of {selected['icao']}, which has no position, moved the view to {t}", inp2)
+        elif selected is not None and selected["lat"] and t is not None and on_map and (abs(t[0] - float(selected["lat"])) > 0.0011 or abs(t[1] - float(selected["lon"])) > 0.0011):
+            col.add("C18", "C18|map_centred_on_another_aircraft", f"Enter on the row of {selected['icao']} ({selected['lat']}, {selected['lon']}) moved the view to {t}", inp2)
+        if t is not None and on_map and any("CUSTOM" in l for l in sess.p.screen.text()[:3]):
             now = blue_now()
             if not any(abs(r - cr) <= 1 and abs(c - cc) <= 1 for r, c in now):
                 col.add("C18", "C18|map_not_centred_on_selected_aircraft", f"Enter on a row of the Airplanes tab: the title gives {t} (CUSTOM) as the centre of the view, but no aircraft is drawn at the centre of the canvas (row {cr}, column {cc}); aircraft cells {now[:10]}", inp2)
